@@ -249,6 +249,38 @@ def defects():
         spec['object_routes'] = False
         return True
 
+    @d('row-window-beyond-the-data', True)
+    def _(spec, R):
+        # rows that do not exist cannot be written: a window reaching past the last row, or starting before the first
+        ch = channels_of_first_frame(spec)
+        n_ = ch[0]['data'].shape[0]
+        if any(c['data'].shape[0] != n_ for c in ch):
+            return False
+        how = R.choice(['one-real-row', 'past-the-end', 'negative-start'])
+        if how == 'one-real-row':
+            spec['write'].update({'from_idx': n_ - 1, 'to_idx': n_ + R.choice([1, 3])})
+        elif how == 'past-the-end':
+            spec['write'].update({'from_idx': 0, 'to_idx': n_ + R.choice([1, 2])})
+        else:
+            spec['write'].update({'from_idx': -1, 'to_idx': None})
+        spec['write']['data_kind'] = R.choice(['inline', 'dict'])
+        for lf in spec['lfs']:
+            for o in lf['objects']:
+                if o['kind'] == 'frame':
+                    o['attrs'].pop('index_type', None)
+        return True
+
+    @d('noformat-payload-neither-text-nor-bytes', True)
+    def _(spec, R):
+        # a packet is text or bytes; a number, a bool or a list of numbers has no packet that stands for it
+        lf = spec['lfs'][0]
+        nfs = [i for i, o in enumerate(lf['objects']) if o['kind'] == 'no_format']
+        if not nfs:
+            lf['objects'].append({'kind': 'no_format', 'name': 'NF-X', 'attrs': {}, 'set_name': lf.get('set_tag'), 'origin_reference': None})
+            nfs = [len(lf['objects']) - 1]
+        lf['noformat'].append((nfs[0], R.choice([7, True, [72, 105], (1, 2, 3), 300, 0])))
+        return True
+
     @d('copy-number-overflow', True)
     def _(spec, R):
         lf = spec['lfs'][0]
